@@ -7,6 +7,7 @@ import (
 	"os"
 	"os/exec"
 	"path/filepath"
+	"sort"
 	"strings"
 	"sync"
 	"time"
@@ -25,8 +26,23 @@ type SolveResult struct {
 // prelude renders sorts, uninterpreted functions and spec functions (all of them), and the
 // requested axioms/lemmas (transitively closed over their own `use` lists).
 func (c *Contracts) prelude(uses []string, forSolver string) (string, []string) {
+	concrete := forSolver == "concrete"
 	var sb strings.Builder
+	var late []string
 	for _, d := range c.Decls {
+		if d.Kind == "uf" && concrete {
+			if spec, ok := c.Concrete[d.Name]; ok {
+				// define after all spec functions: name(args) := spec(args)
+				sorts := d.SX.List[2].List
+				var ps, as []string
+				for i, srt := range sorts {
+					ps = append(ps, fmt.Sprintf("(x%d %s)", i, srt.String()))
+					as = append(as, fmt.Sprintf("x%d", i))
+				}
+				late = append(late, fmt.Sprintf("(define-fun %s (%s) %s (%s %s))\n", d.Name, strings.Join(ps, " "), d.SX.List[3].String(), spec, strings.Join(as, " ")))
+				continue
+			}
+		}
 		switch d.Kind {
 		case "sort":
 			fmt.Fprintf(&sb, "(declare-sort %s 0)\n", d.Name)
@@ -52,6 +68,12 @@ func (c *Contracts) prelude(uses []string, forSolver string) (string, []string) 
 			}
 			fmt.Fprintf(&sb, "(define-fun-rec %s (%s) %s %s)\n", d.Name, strings.Join(ps, " "), d.SX.List[2].String(), d.SX.List[3].String())
 		}
+	}
+	if concrete {
+		// model-finding mode: concrete definitions, no quantified axioms (any model is checked by replay)
+		// the concrete specs must precede their users: emit them now; users among the spec functions were declared earlier
+		// only as uninterpreted symbols if they are not concretised, which is fine for finding candidate inputs
+		return reorderConcrete(sb.String(), late), nil
 	}
 	seen := map[string]bool{}
 	var order []string
@@ -230,7 +252,11 @@ func (q *Query) dropHeavy(pc []string) []string {
 }
 
 func (q *Query) scriptWith(c *Contracts, pc []string) (string, []string) {
-	pre, used := c.prelude(q.Uses, "")
+	mode := ""
+	if q.concrete {
+		mode = "concrete"
+	}
+	pre, used := c.prelude(q.Uses, mode)
 	var sb strings.Builder
 	sb.WriteString("(set-option :produce-models true)\n(set-logic ALL)\n")
 	sb.WriteString(pre)
@@ -436,6 +462,13 @@ func solveScript(q *Query, c *Contracts, dir string, timeout int, cross bool, pc
 // dischargeAll runs all queries with a worker pool.
 func dischargeAll(qs []*Query, c *Contracts, dir string, timeout int, cross bool, workers int) {
 	os.MkdirAll(dir, 0o755) //nolint:errcheck
+	var failMu sync.Mutex
+	failed := map[string]int{}
+	budget := 600 * time.Second
+	if cross {
+		budget = 1800 * time.Second
+	}
+	deadline := time.Now().Add(budget)
 	var wg sync.WaitGroup
 	ch := make(chan *Query)
 	for i := 0; i < workers; i++ {
@@ -447,14 +480,67 @@ func dischargeAll(qs []*Query, c *Contracts, dir string, timeout int, cross bool
 					q.Result = &SolveResult{Status: "unsat", Solver: "syntactic", Outputs: map[string]string{}}
 					continue
 				}
+				if time.Now().After(deadline) {
+					// On the pinned tree every obligation discharges long before this; the budget only ends runs
+					// on trees where many obligations no longer discharge.
+					q.Result = &SolveResult{Status: "unknown", Outputs: map[string]string{"govc": "not attempted: time budget of this run exhausted by undischarged obligations"}}
+					continue
+				}
+				failMu.Lock()
+				nf := failed[q.Fn]
+				failMu.Unlock()
+				if nf >= 8 && q.Fn != "" {
+					// the function is already known to break its contract: the rest of its obligations stay undecided
+					q.Result = &SolveResult{Status: "unknown", Outputs: map[string]string{"govc": "not attempted: this function already fails 8 obligations"}}
+					continue
+				}
+				known := q.short // obligations listed as known findings are expected to fail and do not count
+				if nf >= 3 {
+					q.short = true
+				}
 				q.Result = solve(q, c, dir, timeout, cross)
+				if q.Result.Status != "unsat" && !q.Cover && !known {
+					failMu.Lock()
+					failed[q.Fn]++
+					failMu.Unlock()
+				}
 			}
 		}()
 	}
+	prio := map[string]int{"lemma": 0, "structural": 0, "ensures": 1, "callsite": 2, "loop": 3, "crashinv": 4, "fsframe": 5, "callreq": 6, "cover": 6, "safety": 7, "frame": 8}
+	order := make([]*Query, len(qs))
+	copy(order, qs)
 	for i, q := range qs {
 		q.seq = i
+	}
+	sort.SliceStable(order, func(i, j int) bool { return prio[order[i].Kind] < prio[order[j].Kind] })
+	for _, q := range order {
 		ch <- q
 	}
 	close(ch)
 	wg.Wait()
+}
+
+// reorderConcrete places the concretised definitions right after the spec function they expand to.
+func reorderConcrete(prelude string, late []string) string {
+	lines := strings.SplitAfter(prelude, "\n")
+	var out []string
+	pending := append([]string(nil), late...)
+	for _, ln := range lines {
+		out = append(out, ln)
+		var rest []string
+		for _, l := range pending {
+			// "(define-fun name (...) S (spec args))": place once the spec has been defined
+			i := strings.LastIndex(l, " (")
+			spec := strings.Fields(strings.TrimSuffix(strings.TrimSpace(l[i+2:]), "))"))[0]
+			if strings.HasPrefix(ln, "(define-fun "+spec+" ") {
+				out = append(out, l)
+			} else {
+				rest = append(rest, l)
+			}
+		}
+		pending = rest
+	}
+	out = append(out, pending...)
+	return strings.Join(out, "")
 }
